@@ -58,22 +58,40 @@ def main():
     ap.add_argument('--tests', action='store_true')
     ap.add_argument('-j', type=int, default=8)
     ap.add_argument('-v', action='store_true')
+    ap.add_argument('--prop', default='')
+    ap.add_argument('--json', default='')
     a = ap.parse_args()
     seeds = []
     for f in sorted(glob.glob(os.path.join(ROOT, 'seeds', '*.json'))):
         for s in json.load(open(f)):
-            if a.k in s['name']:
+            if a.k in s['name'] and (not a.prop or a.prop in s['props']):
+                if a.prop:
+                    s = dict(s, props=[a.prop])
                 seeds.append(s)
     subprocess.run([os.path.join(ROOT, 'run'), 'NONE'], capture_output=True)  # make sure the binary is fresh
     bad = 0
+    results = []
     with concurrent.futures.ThreadPoolExecutor(a.j) as ex:
         for name, status, detail in ex.map(lambda s: run_seed(s, a.tests), seeds):
+            results.append({'seed': name, 'status': status})
+            if a.prop and status.startswith('LIVENESS-GAP'):
+                print('LIVENESS-GAP property=%s seed=%s' % (a.prop, name))
+                continue
+            if a.prop:
+                continue
             print('%-14s %s' % (status, name))
             if a.v or not (status.startswith('CAUGHT') or status.startswith('SILENT-OK')):
                 if detail:
                     print('      ' + detail)
             if not (status.startswith('CAUGHT') or status.startswith('SILENT-OK') or status.startswith('NOT-APPLICABLE')):
                 bad += 1
+    if a.json:
+        json.dump(results, open(a.json, 'w'))
+    if a.prop:
+        print('rule-liveness: %d seeded variants of the current tree for %s, %d caught, %d not applicable, %d gaps' % (
+            len(results), a.prop, sum(r['status'].startswith('CAUGHT') for r in results),
+            sum(r['status'].startswith('NOT-APPLICABLE') for r in results), sum(r['status'].startswith('LIVENESS-GAP') or r['status'].startswith('PARTIAL') for r in results)))
+        sys.exit(0)
     print('%d seeds, %d not as expected' % (len(seeds), bad))
     sys.exit(1 if bad else 0)
 main()
